@@ -692,7 +692,9 @@ loop:
 				switch fr.Type() {
 				case FrameSettings:
 					st := fr.Body().(*Settings)
-					sc.enc.SetMaxTableSize(st.HeaderTableSize())
+					if st.Has(HeaderTableSize) {
+						sc.enc.SetMaxTableSize(st.HeaderTableSize())
+					}
 
 					if st.hasWindowSize {
 						delta := int64(int32(st.windowSize)) - int64(curInitialWindow)
@@ -1744,7 +1746,7 @@ func (sc *serverConn) writeLoop() {
 }
 
 func (sc *serverConn) handleSettings(st *Settings) {
-	st.CopyTo(&sc.clientS)
+	st.MergeTo(&sc.clientS)
 	// The encoder belongs to the stream loop, which sets its table size when
 	// this frame reaches it.
 
